@@ -4,7 +4,8 @@
    task or in the tasks awaiting it - exactly what the same code would read if run sequentially - and after
    the computation ends, normally or with an error, every overridden value is back to what it was before."
 
-   Statements only; proofs in proofs/MachineC07.v, built on the C01/C06/C04 invariants of the scheduler
+   Statements only; proofs in proofs/MachineC07.v (tree programs) and proofs/MachineC07S.v (tree programs with
+   synchronous calls, see the end of this comment), built on the C01/C06/C04 invariants of the scheduler
    machine (Machine.v).
 
    WHAT IS PROVED.  For every pointwise service P (no flush body raises half way), any flush order, batch
@@ -53,8 +54,54 @@
      complete_task), non-pointwise services, shared futures (DAGs), and runs in which the task-stack
      guard fired;
    - an end-to-end equation with a sequential evaluator for scoped values (Seq.eval has no variables; the
-     read theorem is stated on the machine state at the moments a task's code runs). *)
+     read theorem is stated on the machine state at the moments a task's code runs).
+
+   ---------------------------------------------------------------------------------------------------------
+   SYNCHRONOUS CALLS (second half of this file; proofs in proofs/MachineC07S.v).  The same theorems for the larger
+   class  stree p /\ wns [] p :
+     MachineC01S.stree - tree programs plus synchronous calls of fresh tasks  fn(args) = Let (FTask q) (fun h =>
+                Sync h k), nested to any depth (the callee is run by a scheduler loop NESTED below the caller's frames);
+     MachineC06S.wns   - wn plus the case of a synchronous call (callee body well nested on its own, continuations
+                well nested with the caller's open list).
+   [layers s] is the same ghost list.  The callers suspended in value() (owners of the FValue frames,
+   MachineC01S.fvals) stay on the scheduler's stack below the callee's segment with their contexts ACTIVE, so their
+   layers stay applied while the nested loop runs the callee and whatever it awaits.
+
+   PROVED for stree (every pointwise P, flush order, priorities, KEEP_DEPENDENCIES, fuel; no_unwind):
+   C07_contexts_nest_lifo_stree: every machine step - of the outermost loop, of a nested loop, of a task body, of
+     value() entering / returning - changes [layers] at its END only.
+   C07_reads_see_enclosing_overrides_stree: whenever code of t runs (MRun t q, also at the moment t makes a synchronous
+     call) every scoped variable is  apply_l init (layers s) : the layers of the tasks below t on the stack whose
+     contexts are active, then t's own open contexts.  Every owner of a lower layer is a caller inside value() or a
+     task with scheduled dependencies; every caller inside value() is below t, active, and contributes ALL its open
+     contexts - the callee (and everything the nested loop runs for it) reads the caller's overrides, as in
+     synchronous code.  C07_reads_innermost_stree: the last override layer for x wins, else the initial value.
+   C07_values_restored_stree: when the outermost call has returned (value or error) and at every flush point of the
+     OUTERMOST loop (no caller inside value()) every scoped variable is what it was before the computation.
+   C07_values_at_flush_stree: at EVERY flush point (also of a loop nested in synchronous calls) the variables are
+     apply_l init (layers s), [layers s] consists exactly of the open contexts of the uncompleted tasks whose contexts
+     are active, and each such task is on the scheduler's stack and is a caller inside value() or has scheduled its
+     dependencies; all callers inside value() are active.
+   C07_layers_are_the_active_contexts_stree: the membership characterisation of [layers] at every non-final
+     configuration.   C07_saved_values_stree: the save-and-restore invariant (ci_old of every active override = value
+     below it, layer keys distinct) at every reachable configuration.
+   REFUTED for stree: C07_values_restored_at_every_flush_stree_is_false - the tree statement "at EVERY flush point
+     every scoped value is back to its initial value" is false once a nested loop flushes (vm_compute witness:
+     MachineC07S.c07s_demo, step 40: x = 40, the override of the caller two calls up, not 0).  The two theorems above
+     are the true form.
+   C07_stree_hypotheses_are_met: the demo run (non-vacuity; all flush points with the layers still applied).
+   C07_layer_owners_await_stree ("the tasks (transitively) awaiting it"; needs stree p only): while code of t runs, the
+     owner u of every layer below t's own awaits t - [MachineC07S.awaits s frames u t]: a chain from u to t whose links are
+     (a) v is in the dependency list of an uncompleted task w (w yielded v), or (b) a caller w is suspended in value() on
+     r: the frames contain  FWait r :: FValue w k  (w called r synchronously).  For yield-only programs only (a) occurs
+     and this is C07_layer_owners_await.
+   NOT PROVED for stree: an end-to-end equation with a sequential evaluator for scoped values (as for tree programs the
+     read theorem is stated on the machine state at the moments a task's code runs).  Still excluded:
+     ReadVar/Probe-branching programs, Sync on an existing
+     handle (LOld / shared futures), NonAsyncContext and raising contexts, with-blocks left open at task end,
+     non-pointwise services, runs in which the task-stack guard fired. *)
 From Asynq Require Import Machine Seq proofs.MachineC08 proofs.MachineC01 proofs.MachineC04 proofs.MachineC07.
+From Asynq Require Import proofs.MachineC01S proofs.MachineDFSS proofs.MachineC06S proofs.MachineC07S.
 
 (* T1 *)
 Theorem C07_values_restored : forall P, pointwise P -> forall p, tree p -> wn [] p -> forall n,
@@ -155,3 +202,149 @@ Example C07_hypotheses_are_met :
   var_get 0 (st_at 28%nat) = var_get 0 s1 /\
   var_get 0 (st_at 100%nat) = var_get 0 s1.
 Proof. exact c07_demo_runs. Qed.
+
+(* ================================================================== tree programs WITH SYNCHRONOUS CALLS (stree, wns) *)
+(* T3 *)
+Theorem C07_contexts_nest_lifo_stree : forall P, pointwise P -> forall p, stree p -> wns [] p -> forall n,
+  let h := fst (create [] (FTask p) (st0 P)) in
+  let s1 := snd (create [] (FTask p) (st0 P)) in
+  no_unwind P n (start h s1) ->
+  exists l, layers (c_st (run P (S n) (start h s1))) = layers (c_st (run P n (start h s1))) ++ l \/
+            layers (c_st (run P n (start h s1))) = layers (c_st (run P (S n) (start h s1))) ++ l.
+Proof. exact contexts_nest_lifo_stree. Qed.
+Print Assumptions C07_contexts_nest_lifo_stree.
+
+(* T2 *)
+Theorem C07_reads_see_enclosing_overrides_stree : forall P, pointwise P -> forall p, stree p -> wns [] p -> forall n t q,
+  let h := fst (create [] (FTask p) (st0 P)) in
+  let s1 := snd (create [] (FTask p) (st0 P)) in
+  no_unwind P n (start h s1) -> c_mode (run P n (start h s1)) = MRun t q ->
+  let c := run P n (start h s1) in
+  let s := c_st c in
+  (forall x, var_get x s = apply_l (fun x => var_get x s1) (layers s) x) /\
+  exists tk rest, get t s = Some (mkFut None (KTask tk)) /\ tk_cact tk = true /\
+    (wns (tk_ctxs tk) q \/ exists h' k, q = Sync h' k /\ forall o, wns (tk_ctxs tk) (k o)) /\
+    tasks s = t :: rest /\ ~ In t rest /\ layers s = lower s rest ++ map (pair t) (tk_ctxs tk) /\
+    (forall u cx, In (u, cx) (lower s rest) ->
+       In u rest /\ exists tku, get u s = Some (mkFut None (KTask tku)) /\ tk_cact tku = true /\ In cx (tk_ctxs tku) /\
+                                (In u (fvals (c_frames c)) \/ tk_ds tku = true)) /\
+    (forall x, In x (fvals (c_frames c)) ->
+       In x rest /\ exists tkx, get x s = Some (mkFut None (KTask tkx)) /\ tk_cact tkx = true /\
+                                forall cx, In cx (tk_ctxs tkx) -> In (x, cx) (lower s rest)).
+Proof. exact reads_see_enclosing_overrides_stree. Qed.
+Print Assumptions C07_reads_see_enclosing_overrides_stree.
+
+Theorem C07_reads_innermost_stree : forall P, pointwise P -> forall p, stree p -> wns [] p -> forall n t q x,
+  let h := fst (create [] (FTask p) (st0 P)) in
+  let s1 := snd (create [] (FTask p) (st0 P)) in
+  no_unwind P n (start h s1) -> c_mode (run P n (start h s1)) = MRun t q ->
+  let s := c_st (run P n (start h s1)) in
+  (forall pre u cid v post, layers s = pre ++ (u, COverride cid x v) :: post ->
+     (forall l, In l post -> ovar (snd l) <> Some x) -> var_get x s = v) /\
+  ((forall l, In l (layers s) -> ovar (snd l) <> Some x) -> var_get x s = var_get x s1).
+Proof. exact reads_innermost_stree. Qed.
+Print Assumptions C07_reads_innermost_stree.
+
+(* T1: the end of the computation and the flush points of the outermost loop *)
+Theorem C07_values_restored_stree : forall P, pointwise P -> forall p, stree p -> wns [] p -> forall n,
+  let h := fst (create [] (FTask p) (st0 P)) in
+  let s1 := snd (create [] (FTask p) (st0 P)) in
+  no_unwind P n (start h s1) ->
+  ((exists o, c_mode (run P n (start h s1)) = MDone o) \/
+   (c_mode (run P n (start h s1)) = MAfterExec /\ fvals (c_frames (run P n (start h s1))) = [])) ->
+  forall x, var_get x (c_st (run P n (start h s1))) = var_get x s1.
+Proof. exact values_restored_stree. Qed.
+Print Assumptions C07_values_restored_stree.
+
+(* T1: every flush point, nested ones included *)
+Theorem C07_values_at_flush_stree : forall P, pointwise P -> forall p, stree p -> wns [] p -> forall n,
+  let h := fst (create [] (FTask p) (st0 P)) in
+  let s1 := snd (create [] (FTask p) (st0 P)) in
+  no_unwind P n (start h s1) -> c_mode (run P n (start h s1)) = MAfterExec ->
+  let c := run P n (start h s1) in
+  let s := c_st c in
+  (forall x, var_get x s = apply_l (fun x => var_get x s1) (layers s) x) /\
+  (forall u cx, In (u, cx) (layers s) <->
+     exists tk, get u s = Some (mkFut None (KTask tk)) /\ tk_cact tk = true /\ In cx (tk_ctxs tk)) /\
+  (forall u tk, get u s = Some (mkFut None (KTask tk)) -> tk_cact tk = true ->
+     In u (tasks s) /\ (In u (fvals (c_frames c)) \/ tk_ds tk = true)) /\
+  (forall u, In u (fvals (c_frames c)) -> exists tk, get u s = Some (mkFut None (KTask tk)) /\ tk_cact tk = true).
+Proof. exact values_at_flush_stree. Qed.
+Print Assumptions C07_values_at_flush_stree.
+
+(* the naive T1 ("back to the initial values at EVERY flush point") is false for stree *)
+Theorem C07_values_restored_at_every_flush_stree_is_false :
+  ~ (forall P, pointwise P -> forall p, stree p -> wns [] p -> forall n,
+     let h := fst (create [] (FTask p) (st0 P)) in
+     let s1 := snd (create [] (FTask p) (st0 P)) in
+     no_unwind P n (start h s1) -> c_mode (run P n (start h s1)) = MAfterExec ->
+     forall x, var_get x (c_st (run P n (start h s1))) = var_get x s1).
+Proof. exact values_restored_at_every_flush_stree_is_false. Qed.
+Print Assumptions C07_values_restored_at_every_flush_stree_is_false.
+
+Theorem C07_layers_are_the_active_contexts_stree : forall P, pointwise P -> forall p, stree p -> wns [] p -> forall n u c,
+  let h := fst (create [] (FTask p) (st0 P)) in
+  let s1 := snd (create [] (FTask p) (st0 P)) in
+  no_unwind P n (start h s1) -> is_final (c_mode (run P n (start h s1))) = false ->
+  let s := c_st (run P n (start h s1)) in
+  In (u, c) (layers s) <->
+  exists tk, get u s = Some (mkFut None (KTask tk)) /\ tk_cact tk = true /\ In c (tk_ctxs tk).
+Proof. exact layers_are_the_active_contexts_stree. Qed.
+Print Assumptions C07_layers_are_the_active_contexts_stree.
+
+(* the owners of the lower layers await the running task: dependency links and synchronous-call links *)
+Theorem C07_layer_owners_await_stree : forall P, pointwise P -> forall p, stree p -> forall n t q,
+  let h := fst (create [] (FTask p) (st0 P)) in
+  let s1 := snd (create [] (FTask p) (st0 P)) in
+  no_unwind P n (start h s1) -> c_mode (run P n (start h s1)) = MRun t q ->
+  let c := run P n (start h s1) in
+  let s := c_st c in
+  forall rest, tasks s = t :: rest -> forall u cx, In (u, cx) (lower s rest) -> awaits s (c_frames c) u t.
+Proof. exact layer_owners_await_stree. Qed.
+Print Assumptions C07_layer_owners_await_stree.
+
+(* the save-and-restore invariant *)
+Theorem C07_saved_values_stree : forall P, pointwise P -> forall p, stree p -> wns [] p -> forall n,
+  let h := fst (create [] (FTask p) (st0 P)) in
+  let s1 := snd (create [] (FTask p) (st0 P)) in
+  no_unwind P n (start h s1) ->
+  match c_mode (run P n (start h s1)) with
+  | MUnwind _ | MStuck => True
+  | _ =>
+    let s := c_st (run P n (start h s1)) in
+    let init := fun x => var_get x s1 in
+    (forall x, var_get x s = apply_l init (layers s) x) /\
+    (forall pre t cid var v post, layers s = pre ++ (t, COverride cid var v) :: post ->
+       ci_old (ci_get (t, cid) s) = apply_l init pre var) /\
+    NoDup (map lkey (layers s))
+  end.
+Proof. exact saved_values_stree. Qed.
+Print Assumptions C07_saved_values_stree.
+
+(* non-vacuity: root [0] (x := 10) awaits sibling [1] (x := 20, blocks on a batch) and caller [2] (ctx 9, x := 30), which
+   calls mid [4] (x := 40, later 41) synchronously, which calls leaf [5] / [7] (x := 70) synchronously; the leaves block
+   on batch items, so the loop nested two calls deep flushes (steps 40, 49, 66, 75) with x = 40 / 41, the loop nested
+   one call deep flushes at step 82 with x = 30, the outermost loop at steps 91 and 107 with x = 0 (initial value).
+   The demo program c07s_demo and this fact are in proofs/MachineC07S.v *)
+Theorem C07_stree_hypotheses_are_met :
+  let P := c06s_P in
+  let h := fst (create [] (FTask c07s_demo) (st0 P)) in
+  let s1 := snd (create [] (FTask c07s_demo) (st0 P)) in
+  let c k := run P k (start h s1) in
+  let keys k := map lkey (layers (c_st (c k))) in
+  let x k := var_get 0 (c_st (c k)) in
+  stree c07s_demo /\ wns [] c07s_demo /\ pointwise P /\ no_unwind_b P 200 (start h s1) = true /\
+  c_mode (c 200%nat) = MDone (Ok (VTuple [VInt 10; VInt 30])) /\ x 0%nat = VInt 0 /\
+  (exists q, c_mode (c 34%nat) = MRun [5] q) /\ fvals (c_frames (c 34%nat)) = [[4]; [2]] /\
+  keys 34%nat = [([0], 0); ([2], 9); ([2], 5); ([4], 1); ([5], 7)] /\ x 34%nat = VInt 70 /\
+  map (fun k => (k, fvals (c_frames (c k)), tasks (c_st (c k)), x k, keys k))
+      (filter (fun k => match c_mode (c k) with MAfterExec => true | _ => false end) (seq 0 200)) =
+    [(40%nat, [[4]; [2]], [[4]; [2]; [0]], VInt 40, [([0], 0); ([2], 9); ([2], 5); ([4], 1)]);
+     (49%nat, [[4]; [2]], [[4]; [2]; [0]], VInt 40, [([0], 0); ([2], 9); ([2], 5); ([4], 1)]);
+     (66%nat, [[4]; [2]], [[4]; [2]; [0]], VInt 41, [([0], 0); ([2], 9); ([2], 5); ([4], 1)]);
+     (75%nat, [[4]; [2]], [[4]; [2]; [0]], VInt 41, [([0], 0); ([2], 9); ([2], 5); ([4], 1)]);
+     (82%nat, [[2]], [[2]; [0]], VInt 30, [([0], 0); ([2], 9); ([2], 5)]);
+     (91%nat, [], [], VInt 0, []); (107%nat, [], [], VInt 0, [])]%Z /\
+  x 200%nat = VInt 0.
+Proof. exact c07s_demo_runs. Qed.
+Print Assumptions C07_stree_hypotheses_are_met.
